@@ -7,7 +7,7 @@ import os
 
 import numpy as np
 
-from .. import core, geo, motlutil
+from .. import core, geo, motlsys, motlutil
 
 PROPS = ["C05_UpdateKeepsComplete", "C05_ScaleMultiplies", "C05_ShiftMovesByOwnOrientation", "C05_RotateComposes",
          "C05_FlipMirrors", "C05_NothingAppearsOrVanishes"]
@@ -136,6 +136,8 @@ def replay(ctx, case):
         run_history(ctx, case["init"], case["steps"], case.get("variant", 0), case["kind"])
     elif case["kind"] == "float":
         run_float(ctx, [case])
+    elif case["kind"] == "mixed":
+        motlsys.run_mixed(ctx, "pose", [case])
     else:
         raise core.MachineryError("unknown case kind")
 
@@ -330,3 +332,6 @@ def run(ctx):
     # L3
     cases = [gen_float_case(ctx.rng, i + 1) for i in range(ctx.pick(150, 4000))]
     run_float(ctx, cases)
+    # composition: pose operations interleaved with set operations and EM round trips on one live list
+    # (MotlSysTrace.tla, Scope = "pose": only the pose steps are judged, the others re-synchronise)
+    motlsys.run(ctx, "pose", ctx.pick(150, 3000))
